@@ -266,7 +266,9 @@ pub fn check_pair_with(out: &mut Out, src: &str, c0: &Ctx, ctx_desc: String, reu
 
 pub fn hostile_string(r: &mut Rng, max: usize) -> String {
     // char soup weighted towards operator characters, quotes, comment markers, digits
-    const SOUP: [&str; 66] = [
+    const SOUP: [&str; 82] = [
+        // digits of other scripts, digit-like characters, separators people put into numbers
+        "٣", "１", "²", "½", "〇", "०", "Ⅷ", "_", "_", "'", "1_0", "١_٠", "１_０", "²_²", "1e", ":",
         "\"\\u{D800}\"", "\"\\u{110000}\"", "\"\\x41\"", "\"\\u{41}\"", "\"\\u{FFFFFFFFF}\"", "\"\\0\"",
         "\\u{D800}", "\\u{41}", "\\x41", "\\n", "\\u{110000}", "\"\\u{", "\r\n", "\r", "\u{b}", "\u{85}", "\\\"", "\"\\\\\"",
         "+", "-", "*", "/", "%", "^", "(", ")", ",", ";", "=", "!", "<", ">", "&", "|", "\"", "\\", "/*", "*/", "//",
